@@ -88,7 +88,11 @@ func (s *Set) serves(method, host, path string, o MatchOpts) bool {
 // Serve is the reference dispatcher. path is the path the router matches on (the raw path when the request has one).
 // decodedPath is URL.Path (used for the "/" exception).
 func (s *Set) Serve(cfg Config, method, host, path, decodedPath string, o MatchOpts) Served {
-	m := s.Match(method, host, path, o)
+	return s.Dispatch(cfg, method, host, path, decodedPath, s.Match(method, host, path, o), o)
+}
+
+// Dispatch applies the dispatch rules to a given routing result m.
+func (s *Set) Dispatch(cfg Config, method, host, path, decodedPath string, m MatchResult, o MatchOpts) Served {
 	if m.Route != nil && !m.TSR {
 		return Served{Kind: KRoute, Route: m.Route, Params: m.Params, Match: m}
 	}
